@@ -95,7 +95,11 @@ func leaf(v, path, avail string, l Leaf) *ye.Node {
 	return n
 }
 func tmpl(v, path, avail string) *ye.Node { return leaf(v, path, avail, Leaf{Template: true}) }
-func typed(v, path, avail, ty string) *ye.Node {
+// typed makes a bool/int/float leaf; now and then the literal is written as a lone expression.
+func (g *G) typed(v, path, avail, ty string) *ye.Node {
+	if g.i("typedexpr", 0, 4) == 0 {
+		v = "${{ " + v + " }}"
+	}
 	return leaf(v, path, avail, Leaf{Template: true, Typed: ty})
 }
 func exempt(v, path, why string) *ye.Node { return leaf(v, path, "", Leaf{Exempt: why}) }
@@ -293,7 +297,7 @@ func (g *G) Workflow() *WF {
 					default:
 					}
 					if g.b("dreq") {
-						in.Set("required", typed("true", p+".required", "", "bool"))
+						in.Set("required", g.typed("true", p+".required", "", "bool"))
 					}
 					if len(in.Keys) == 0 {
 						in.Set("description", tmpl("x", p+".description", ""))
@@ -327,7 +331,7 @@ func (g *G) Workflow() *WF {
 						in.Set("description", tmpl("desc", p+".description", ""))
 					}
 					if g.b("creq") {
-						in.Set("required", typed("true", p+".required", "", "bool"))
+						in.Set("required", g.typed("true", p+".required", "", "bool"))
 					} else if g.b("cdef") {
 						dv := map[string]string{"string": "x", "boolean": "true", "number": "42"}[ty]
 						in.Set("default", tmpl(dv, p+".default", "on.workflow_call.inputs.<inputs_id>.default"))
@@ -342,7 +346,7 @@ func (g *G) Workflow() *WF {
 				for k := 0; k < g.i("ncsec", 1, 2); k++ {
 					s := sec("call-secret")
 					if g.b("csreq") || true {
-						s.Set("required", typed(g.pick("csreqv", []string{"true", "false"}), "on.workflow_call.secrets.<secret_id>.required", "", "bool"))
+						s.Set("required", g.typed(g.pick("csreqv", []string{"true", "false"}), "on.workflow_call.secrets.<secret_id>.required", "", "bool"))
 					}
 					if g.b("csd") {
 						s.Set("description", tmpl("tok", "on.workflow_call.secrets.<secret_id>.description", ""))
@@ -459,7 +463,7 @@ func (g *G) concurrency(path, avail string) *ye.Node {
 	c := sec("concurrency")
 	c.Set("group", tmpl("grp-${{ github.ref }}", path+".group", avail))
 	if g.b("cip") {
-		c.Set("cancel-in-progress", typed("true", path+".cancel-in-progress", avail, "bool"))
+		c.Set("cancel-in-progress", g.typed("true", path+".cancel-in-progress", avail, "bool"))
 	}
 	return c
 }
@@ -597,10 +601,10 @@ func (g *G) strategy(p string) (*ye.Node, []string) {
 		s.Set("matrix", m)
 	}
 	if g.b("ff") {
-		s.Set("fail-fast", typed("false", p+".strategy.fail-fast", av, "bool"))
+		s.Set("fail-fast", g.typed("false", p+".strategy.fail-fast", av, "bool"))
 	}
 	if g.b("mp") {
-		s.Set("max-parallel", typed("2", p+".strategy.max-parallel", av, "int"))
+		s.Set("max-parallel", g.typed("2", p+".strategy.max-parallel", av, "int"))
 	}
 	return s, keys
 }
@@ -737,10 +741,10 @@ func (g *G) job(w *WF, id string) *ye.Node {
 		j.Set("if", tmpl(g.pick("jifv", []string{"github.ref == 'refs/heads/main'", "${{ always() }}", "success()"}), p+".if", p+".if"))
 	}
 	if g.b("jtimeout") {
-		j.Set("timeout-minutes", typed("30", p+".timeout-minutes", p+".timeout-minutes", "float"))
+		j.Set("timeout-minutes", g.typed("30", p+".timeout-minutes", p+".timeout-minutes", "float"))
 	}
 	if g.b("jcoe") {
-		j.Set("continue-on-error", typed("true", p+".continue-on-error", p+".continue-on-error", "bool"))
+		j.Set("continue-on-error", g.typed("true", p+".continue-on-error", p+".continue-on-error", "bool"))
 	}
 	if g.b("jcontainer") {
 		j.Set("container", g.container(p+".container", p+".container", true))
@@ -782,6 +786,11 @@ func (g *G) step(ids *[]string) *ye.Node {
 		s = sec("run-step")
 		run := tmpl(g.pick("runv", []string{"echo hello", "make test", "echo ${{ github.sha }}", "echo \"name=value\" >> \"$GITHUB_OUTPUT\""}), p+".run", p+".run")
 		LeafOf(run).Script = true
+		if g.i("runblock", 0, 3) == 0 {
+			// multi-line script written as a block scalar
+			run.Val = g.pick("runblockv", []string{"echo one\necho two\n", "set -x\nmake ${{ github.event_name }}\n\necho done\n", "if [ -n \"$X\" ]; then\n  echo ${{ github.sha }}\nfi", "echo \"v=1\" >> \"$GITHUB_OUTPUT\"\n"})
+			run.Style = ye.Literal
+		}
 		s.Set("run", run)
 		if g.b("sshell") {
 			s.Set("shell", tmpl(g.pick("shv", []string{"bash", "pwsh", "python"}), p+".shell", ""))
@@ -837,10 +846,10 @@ func (g *G) step(ids *[]string) *ye.Node {
 		s.Set("env", g.env(p+".env", p+".env"))
 	}
 	if g.b("scoe") {
-		s.Set("continue-on-error", typed("false", p+".continue-on-error", p+".continue-on-error", "bool"))
+		s.Set("continue-on-error", g.typed("false", p+".continue-on-error", p+".continue-on-error", "bool"))
 	}
 	if g.b("stm") {
-		s.Set("timeout-minutes", typed("5", p+".timeout-minutes", p+".timeout-minutes", "float"))
+		s.Set("timeout-minutes", g.typed("5", p+".timeout-minutes", p+".timeout-minutes", "float"))
 	}
 	return s
 }
@@ -858,8 +867,8 @@ func (g *G) Styles(root *ye.Node) {
 			if l != nil && l.Typed != "" && !strings.HasPrefix(n.Val, "${{") {
 				return // bool/int/float literals must stay plain
 			}
-			if n.Val == "true" || n.Val == "false" || n.Val == "null" || isNumber(n.Val) || n.Val == "yes" {
-				return // keep YAML type
+			if n.Val == "true" || n.Val == "false" || n.Val == "null" || isNumber(n.Val) || n.Val == "yes" || n.Style == ye.Literal {
+				return // keep YAML type / block scalars
 			}
 			switch g.i("style", 0, 5) {
 			case 0:
